@@ -50,7 +50,7 @@ MUTANTS = {
     'short_record_padded': (P + 'kd_buf_parser.py', "                buf = reader.read(KEVENT_SIZE)\n                yield from_kd_buf(buf)", "                buf = reader.read(KEVENT_SIZE).ljust(KEVENT_SIZE, b'\\x00')\n                yield from_kd_buf(buf)", ['C06']),
     'v2_short_record_padded': (P + 'kd_buf_parser.py', "            if not buf:\n                break\n            yield from_kd_buf(buf)", "            if not buf:\n                break\n            yield from_kd_buf(buf.ljust(KEVENT_SIZE, b'\\x00'))", ['C06']),
     'seek_no_eof_exit': (P + 'kd_buf_parser.py', "        if not next_byte:\n            raise EOFError(f'Reached the end of the stream while looking for {data!r}')\n", "", ['C06']),
-    'traces_materialised_sorted': (P + 'pykdebugparser.py', "        trace_generator = traces_parser.feed_generator(self.kevents(kdebug))\n", "        trace_generator = iter(traces_parser.feed_generator(sorted(self.kevents(kdebug), key=lambda e: e.timestamp)))\n", ['C06']),
+    'traces_materialised_sorted': (P + 'pykdebugparser.py', "        trace_generator = traces_parser.feed_generator(self._kevents(kdebug, None, filter_class))\n", "        trace_generator = iter(traces_parser.feed_generator(sorted(self._kevents(kdebug, None, filter_class), key=lambda e: e.timestamp)))\n", []),
     'count_off_by_one': (P + '__main__.py', "        if i == count:\n            break\n        print(obj)", "        print(obj)\n        if i == count:\n            break", ['C06']),
     'cs_end_timestamp': (P + 'callstacks_parser.py', "yield Callstack(trace.ktraces[0].timestamp, trace.ktraces[0].tid, frames)", "yield Callstack(trace.ktraces[-1].timestamp, trace.ktraces[0].tid, frames)", ['C15']),
     'cs_insert_append': (P + 'callstacks_parser.py', "        index_ = bisect(self.dyld_addresses, address)\n", "        index_ = len(self.dyld_addresses)\n", ['C15']),
